@@ -276,6 +276,7 @@ class CallCtx(object):
         new_ghost_vals = {}
         for m in con.modifies:
             if isinstance(m, Ghost):
+                old_ghost[m.name] = ex.env.trusted.ghost(st, m.name)      # value before the call
                 new_ghost_vals[m.name] = V.fresh("ghost_" + m.name, ex.env.trusted.ghost_sort(m.name))
 
         def new_arr(field):
